@@ -141,11 +141,13 @@ CLAIMS = {
     "C18": {
         "level": "Kernel-checked: the source's two flag tables (regenerated every run) put each documented short/long pair in one arm, are disjoint, and the scope "
                  "table covers every command flag; in the model parser a long spelling at the head of the remaining arguments takes exactly the step of its short "
-                 "spelling in every parser state; an option flag at top level sets its field and nothing else (one-step form, option_position_partial) and is rejected "
-                 "inside an open scope. The whole-argv statements (any position, vic translation) are decided per run on the real code: every variant's parsed "
-                 "Opts/Cmd tree must equal the short-flag one and stdout/exit must be byte-identical; the model parser is compared on every flag spelling.",
-        "note": NOTE_COMMON + " PARTIAL: commutation of an option flag with a whole argument list is not a theorem (only its one-step form); the pest-generated vic parser is compared, not modelled.",
-        "technique": "Lean 4 proof (decide over translator-generated flag tables; one-step parser lemmas) + parser correspondence + four-spelling differential runs of the real binary",
+                 "spelling in every parser state; an option flag at top level sets its field and nothing else and is rejected inside an open scope; parsing commutes with setting a "
+                 "boolean option for every argument list, scope stack and parser state (parse_comm, induction over the whole parser), so a flag met now equals the "
+                 "option set at the very end and may stand before or after any self-contained top-level prefix of command flags (option_position). The vic "
+                 "translation and -d/-t positions are decided per run on the real code: every variant's parsed Opts/Cmd tree must equal the short-flag one and "
+                 "stdout/exit must be byte-identical; the model parser is compared on every flag spelling.",
+        "note": NOTE_COMMON + " -d/-t (options with an operand) commute with everything except a second -d/-t (last wins): covered by the one-step lemma and the position sweep, not by parse_comm; the pest-generated vic parser is compared, not modelled.",
+        "technique": "Lean 4 proof (decide over translator-generated flag tables; commutation of the parser with option setting by induction over argv) + parser correspondence + four-spelling differential runs of the real binary",
     },
     "C13": {
         "level": "Kernel-checked, for every buffer given by its line decomposition (any line bodies without newline, last line terminated or not; every buffer "
